@@ -60,7 +60,7 @@ def build(desc):
     mp.update(n_runners=(2, 5), market_types=("WIN", "PLACE"), winners=(1, 2, 3), p_removal=0.1)
     d["overrides"] = {
         "market_params": mp,
-        "script_params": {"n_orders": (3, 12), "types": ("LIMIT",) * 5 + ("LOC", "MOC"), "p_finest": 0.15, "p_cancel": 0.25, "p_replace": 0.2, "p_fok": 0.1, "modes": ("cross", "cross", "at", "rest", "join", "far"), "sizes": (2.0, 2.37, 5.0, 10.0, 25.5)},
+        "script_params": {"n_orders": (3, 12), "types": ("LIMIT",) * 5 + ("LOC", "MOC"), "p_finest": 0.15, "p_cancel": 0.25, "p_replace": 0.2, "p_fok": 0.1, "modes": ("cross", "cross", "at", "rest", "join", "far"), "sizes": (2.0, 2.37, 5.0, 10.0, 25.5, 2.01, 4.35, 8.2, 1.15, 0.29)},
     }
     if desc["idx"] % 7 == 5:
         d["overrides"]["n_strategies"] = (2, 2)
